@@ -134,7 +134,7 @@ class Maintainer(Asset):
                     self.id,
                     partial(self._start_work_order, request = req),
                     EventType.START_WORK,
-                    f'start work order: {req.target.name}')
+                    f'start work order: {Maintainer._get_target_name(req)}')
             else:
                 i += 1
 
@@ -143,7 +143,7 @@ class Maintainer(Asset):
         self._record_work_order_datapoint('start_work_order', request)
 
         cost = request.target.get_work_order_cost(request.tag)
-        self.add_cost(f'work order - tag:{request.tag} target:{request.target.name}', cost)
+        self.add_cost(f'work order - tag:{request.tag} target:{Maintainer._get_target_name(request)}', cost)
 
         request.target.start_work(request.tag)
         self._env.schedule_event(
@@ -151,7 +151,7 @@ class Maintainer(Asset):
             self.id,
             partial(self._finish_work_order, request = request),
             EventType.FINISH_WORK,
-            f'end work order: {request.target.name}')
+            f'end work order: {Maintainer._get_target_name(request)}')
 
     def _finish_work_order(self, request):
         request.target.end_work(request.tag)
@@ -161,8 +161,13 @@ class Maintainer(Asset):
 
         self.try_working_requests()
 
+    @staticmethod
+    def _get_target_name(request):
+        # Maintainable targets are not required to have a name.
+        return getattr(request.target, 'name', 'N/A')
+
     def _record_work_order_datapoint(self, list_label, request):
-        name = getattr(request.target, 'name', 'N/A')
+        name = Maintainer._get_target_name(request)
         self._env.add_datapoint(list_label, self.name,
                                 (self._env.now, name, request.tag, request.info))
 
